@@ -12,6 +12,7 @@ import Gotlcp.Model.ParsersFacts
 import Gotlcp.Spec.RobustSpec
 
 namespace Gotlcp.Oracle.C09
+open Gotlcp.Model
 open Gotlcp.Model.Parsers
 open Gotlcp.Spec
 
